@@ -102,6 +102,8 @@ Definition slice_inside (n : N) (s : slice) : Prop :=
 Definition slice_insideb (n : N) (s : slice) : bool :=
   (s_len s =? 0) || match s_ptr s with Some p => p + s_len s <=? n | None => false end.
 
-(** Reader invariant: the cached length is the length, and the read window ends inside the data. *)
+(** Reader invariant: the cached length is the length, the read window ends inside the data, the table is
+    smaller than 4 GiB and its elements are bytes. *)
 Definition reader_wf (r : reader) : Prop :=
-  r_len r = N.of_nat (length (r_data r)) /\ r_pkgEnd r <= r_len r /\ r_len r < two32.
+  r_len r = N.of_nat (length (r_data r)) /\ r_pkgEnd r <= r_len r /\ r_len r < two32 /\
+  Forall (fun b => b < 256) (r_data r).
